@@ -12,6 +12,7 @@ template <size_t R, size_t A1, size_t A2> constexpr size_t other_pos(size_t j) {
 template <class K, size_t R, size_t A1, size_t A2, int SIGN>
 void ob_c04_diagonal(const mk_t<K,size_t,R>& shape_, const mk_t<K,size_t,R-1>& idx_, int offset)
 {
+    assume_len<R>(shape_); assume_len<R-1>(idx_);
     const auto shape = shape_; const auto idx = idx_;
     for_<R>([&](auto I){ ASSUME((size_t)rd<I.value>(shape) >= 1); ASSUME((size_t)rd<I.value>(shape) < (1ul<<20)); });
     const int s1 = (int)rd<A1>(shape), s2 = (int)rd<A2>(shape);
@@ -51,6 +52,7 @@ void ob_c04_diagonal_negctl(const std::array<size_t,2>& shape_, const std::array
                       template void ob_c04_diagonal<K,R,A1,A2,0>(const mk_t<K,size_t,R>&, const mk_t<K,size_t,R-1>&, int); \
                       template void ob_c04_diagonal<K,R,A1,A2,1>(const mk_t<K,size_t,R>&, const mk_t<K,size_t,R-1>&, int);
 #define DGK(R,A1,A2) DG(k_std,R,A1,A2) DG(k_utl,R,A1,A2)
+DG(k_sv,2,0,1) DG(k_sv,2,1,0) DG(k_sv,3,0,2) DG(k_sv,3,2,0)   // bounded run-time-length shapes: the run-time-loop branches
 DGK(2,0,1) DGK(2,1,0) DGK(3,0,1) DGK(3,1,2) DGK(3,0,2) DGK(3,2,0) DGK(4,1,3) DGK(4,2,1)
 #ifdef VERIF_THOROUGH
 DGK(3,1,0) DGK(3,2,1) DGK(4,0,1) DGK(4,0,2) DGK(4,0,3) DGK(4,1,2) DGK(4,3,0) DGK(4,3,2)
